@@ -4,9 +4,9 @@ from pyvc.contracts import contract
 C = "decaylanguage.dec.dec.DecFileParser."
 DECAYS = "self._parsed_decays"
 FILE = "self._parsed_dec_file"
-PARSED = [f"typ({FILE}, 'obj:Tree') and wf_file({FILE})",
+PARSED = [f"typ({FILE}, 'obj:Tree') and wf_labels({FILE}, 'copydecay', 'label', 'cdecay', 'chargeconj')",
           f"typ({DECAYS}, 'list')",
-          f"forall(lambda j: implies(0 <= j < llen({DECAYS}), wf_resolved(lget({DECAYS}, j), 'decay')))",
+          f"forall(lambda j: implies(0 <= j < llen({DECAYS}), table_head(lget({DECAYS}, j))))",
           # every table is an object of its own
           f"forall(lambda j, k: implies(0 <= j < k < llen({DECAYS}), not same(lget({DECAYS}, j), lget({DECAYS}, k))))"]
 
@@ -38,6 +38,12 @@ contract(C + "_add_decays_to_be_copied",
                  f"same({DECAYS}, old({DECAYS}))", f"llen({DECAYS}) == old(llen({DECAYS}))",
                  f"forall(lambda j: implies(0 <= j < llen({DECAYS}), same(lget({DECAYS}, j), old(lget({DECAYS}, j)))))",
                  "forall(lambda j: implies(0 <= j < llen(copied_decays), isfresh(lget(copied_decays, j)) and typ(lget(copied_decays, j), 'obj:Tree')))",
+                 # the copies are tables of their own down to the mother token
+                 "forall(lambda j: implies(0 <= j < llen(copied_decays), table_head(lget(copied_decays, j))))",
+                 "forall(lambda j: implies(0 <= j < llen(copied_decays), isfresh(mother_token(lget(copied_decays, j)))))",
+                 # the copies were allocated after the two result lists: they cannot contain them
+                 "forall(lambda j: implies(0 <= j < llen(copied_decays), refnum(lget(copied_decays, j).children) >= _loop_alloc and "
+                 "       refnum(lget(lget(copied_decays, j).children, 0).children) >= _loop_alloc))",
                  f"forall(lambda j: implies(0 <= j < llen(copied_decays), "
                  f"   exists(lambda k, p: 0 <= k < old(llen({DECAYS})) and 0 <= p < len(stmts({FILE}, 'copydecay')) and "
                  f"          copied_from(lget(copied_decays, j), old(lget({DECAYS}, k))) and "
@@ -48,4 +54,4 @@ contract(C + "_add_decays_to_be_copied",
                  f"       exists(lambda j: 0 <= j < llen(copied_decays) and mother_of(lget(copied_decays, j)) == key_at(decays2copy, q))))",
              ], "types": {"copied_decays": "list", "misses": "list"}},
          },
-         modifies=[DECAYS], returns="none", properties=[])  # WIP: not yet registered for C08
+         modifies=[DECAYS], returns="none", properties=["C08"])
